@@ -70,6 +70,15 @@ func diffMapMap(dst, src map[string]any) (any, error) {
 			continue
 		}
 
+		if !patchable(v, v2) {
+			// A non-empty map or a list cannot be overridden in place by a
+			// value of another kind; replace the enclosing map instead.
+			whole := maps.Clone(dst)
+			whole["$replace"] = true
+
+			return whole, nil
+		}
+
 		v3, err := diff(v, v2)
 		if err != nil {
 			return nil, err
@@ -157,6 +166,22 @@ outer2:
 	}
 
 	return ret, nil
+}
+
+// patchable reports whether bkl accepts dst layered over src in place.
+func patchable(dst, src any) bool {
+	switch src2 := src.(type) {
+	case map[string]any:
+		_, ok := dst.(map[string]any)
+		return ok || len(src2) == 0
+
+	case []any:
+		_, ok := dst.([]any)
+		return ok
+
+	default:
+		return true
+	}
 }
 
 // applies reports whether layering patch over src yields exactly dst.
